@@ -201,6 +201,8 @@ class _Rig:
 def pre_conn(addrs: List[Tuple[bool, int]], ct: int, steps: List[Tuple[int, int]]) -> bool:
     if not (1 <= len(addrs) <= P.N and len(steps) <= P.S):
         return False
+    if len(addrs) >= 3 and len(steps) > P.S3:
+        return False
     if not (0 <= ct <= 3):
         return False
     if P.SYM and addrs[0][0]:
@@ -219,8 +221,8 @@ def pre_conn(addrs: List[Tuple[bool, int]], ct: int, steps: List[Tuple[int, int]
 
 @harness(
     pre=pre_conn,
-    quick=dict(N=3, S=3, SYM=1, timeout=300, reach_timeout=60),
-    thorough=dict(N=4, S=4, SYM=0, timeout=1500, reach_timeout=120),
+    quick=dict(N=3, S=3, S3=2, SYM=1, timeout=300, reach_timeout=150),
+    thorough=dict(N=4, S=4, S3=4, SYM=0, timeout=1500, reach_timeout=300),
     nshards=dict(quick=36, thorough=48),
     reach=["sync_fail", "sync_ok_first_then_timer", "sync_ok_later_then_timer", "timeout_error", "all_failed_error", "late_success_closed", "secondary_started"],
     units=["tcpclient._Connector.__init__", "tcpclient._Connector.split", "tcpclient._Connector.start",
@@ -231,6 +233,10 @@ def pre_conn(addrs: List[Tuple[bool, int]], ct: int, steps: List[Tuple[int, int]
            "concurrent.future_add_done_callback", "ioloop.IOLoop.add_timeout"],
     stubs=["VLoop/FakeAio virtual loop and clock (vp/env.py): timers never early, (deadline, insertion) order, "
            "callbacks FIFO",
+           "per address the connect() outcome at return time is three-valued (symbolic): pending / already failed / "
+           "already succeeded (synchronous success, e.g. loopback transport) - for the attempt started from start() "
+           "as well as those started from on_timeout / on_connect_done; timers armed after a synchronous success "
+           "are fired by the schedule and by the final drain",
            "connect() callable = environment: FakeConnStream (close idempotent; close while connecting fails "
            "the connect future with StreamClosedError, as BaseIOStream does); a failed connect closes its own "
            "stream (as IOStream._handle_connect/close does)",
@@ -245,7 +251,7 @@ def pre_conn(addrs: List[Tuple[bool, int]], ct: int, steps: List[Tuple[int, int]
     outside=["quick tier only: the first address is AF_INET6 (lists that differ only by swapping the two family "
              "labels are mirror images); the thorough tier runs both labellings",
              "TCPClient.connect / _create_stream (resolver, real sockets, source_ip bind, TLS handshake)",
-             "more than N addresses / S schedule steps", "more than two address families",
+             "more than N addresses / S schedule steps (lists of 3 or more addresses: S3 steps - quick 2, thorough 4 - plus the drain, which fails everything still running and fires every armed timer)", "more than two address families",
              "attempts that never finish AND no connect_timeout (then nothing completes by design)"],
 )
 def h_connector(addrs: List[Tuple[bool, int]], ct: int, steps: List[Tuple[int, int]]):
@@ -268,6 +274,8 @@ def h_connector(addrs: List[Tuple[bool, int]], ct: int, steps: List[Tuple[int, i
                     if h.when < nxt:
                         nxt = h.when
                 env.advance(nxt - env.v.now)
+                if rig.sync_oks:
+                    rig.timers_after_sync_ok += 1
             else:
                 fl = rig.inflight()
                 if not fl or (k == 3 and len(fl) < 2):
@@ -292,12 +300,11 @@ def h_connector(addrs: List[Tuple[bool, int]], ct: int, steps: List[Tuple[int, i
             rig.check()
         # ---- drain: everything still running fails, all timers fire -> the connect must be complete
         for _ in range(len(addrs) + 1):
-            fl = rig.inflight()
-            if not fl and rig.fut.done():
-                break
-            for att in fl:
+            for att in rig.inflight():
                 rig.fail(att)
-            env.advance(4)
+            env.advance(4)             # always at least once: every timer still armed fires (also after completion)
+            if not rig.inflight() and rig.fut.done():
+                break
         rig.check()
         assert rig.fut.done(), "connect never completed although every attempt finished"
         assert not rig.inflight()
